@@ -123,6 +123,32 @@ def expected (cmp : K → K → Int) (desc : Bool) (cs : List (Con K)) (es : Lis
   let hits := live.filter (sat cmp cs)
   if desc then hits.reverse else hits
 
+/-! ### constraints under another collation (F62)
+
+SQLite evaluates `k = 'abc' COLLATE NOCASE` with its own relation; the tree is ordered bytewise.
+`CCon` carries whether a constraint's collation is BINARY; `sat'` is whatever SQLite's relation
+is for the others (nothing is assumed about it). -/
+
+structure CCon (K : Type) where
+  con : Con K
+  binary : Bool
+
+/-- what `BestIndex` hands to `Filter` -/
+def pushed (F : Facts) (cs : List (CCon K)) : List (Con K) :=
+  (cs.filter fun c => c.binary || !F.bestIndexSkipsOtherCollations).map (·.con)
+
+/-- SQLite's own evaluation of one constraint -/
+def satC (cmp : K → K → Int) (sat' : K → Con K → Bool) (k : K) (c : CCon K) : Bool :=
+  if c.binary then sat1 cmp k c.con else sat' k c.con
+
+def recheckC (cmp : K → K → Int) (sat' : K → Con K → Bool) (cs : List (CCon K)) (ks : List K) : List K :=
+  ks.filter fun k => cs.all (satC cmp sat' k)
+
+def expectedC (cmp : K → K → Int) (sat' : K → Con K → Bool) (desc : Bool) (cs : List (CCon K)) (es : List (Ent K)) : List K :=
+  let live := (es.filter fun e => !e.2).map (·.1)
+  let hits := live.filter fun k => cs.all (satC cmp sat' k)
+  if desc then hits.reverse else hits
+
 /-- laws of the key comparison (what C07 proves of `Key.Order`) and sortedness of the cursor -/
 structure OrderLaws (cmp : K → K → Int) : Prop where
   refl : ∀ a, cmp a a = 0
